@@ -44,13 +44,14 @@ ALL_OPS = ["FindIP", "GetHosts", "PrintTable", "IPAddrs", "FindByMAC", "FindMACE
 BASE_INV = ["TypeOK", "RaceLog", "LockOrder", "NoPanic", "C05_StructureUnlessWriter"]
 
 
-def cfg(scenario, spec="MCSpec", api=(), ops=ALL_OPS, inv=BASE_INV, fixed=False, handlers=False, deadlock=True):
+def cfg(scenario, spec="MCSpec", api=(), ops=ALL_OPS, inv=BASE_INV, fixed=False, handlers=False, deadlock=True, offgate=False):
     return ("SPECIFICATION %s\nCONSTANTS\n  MACs = {1, 2}\n  IPs = {1, 2}\n  NoIP = 0\n  NoProc = \"none\"\n"
             "  Scenario = \"%s\"\n  Frames <- MC_Frames\n  InitHosts <- MC_InitHosts\n  ApiProcs = {%s}\n  ApiOps = {%s}\n"
-            "  FrameTime = 10\n  PurgeNow = 10\n  OfflineD = 2\n  PurgeD = 4\n  Handlers = %s\n  Fixed = %s\n"
+            "  FrameTime = 10\n  PurgeNow = 10\n  OfflineD = 2\n  PurgeD = 4\n  Handlers = %s\n  Fixed = %s\n  OfflineGate = %s\n"
             "INVARIANTS %s\nCHECK_DEADLOCK %s\n" %
             (spec, scenario, ", ".join('"%s"' % a for a in api), ", ".join('"%s"' % o for o in ops),
-             "TRUE" if handlers else "FALSE", "TRUE" if fixed else "FALSE", " ".join(inv), "TRUE" if deadlock else "FALSE"))
+             "TRUE" if handlers else "FALSE", "TRUE" if fixed else "FALSE", "TRUE" if offgate else "FALSE", " ".join(inv),
+             "TRUE" if deadlock else "FALSE"))
 
 
 def run_tlc(ctx, name, text, workers=4, timeout=1500):
@@ -73,8 +74,9 @@ def pairs_of(r):
     return out
 
 
-def model_runs(ctx):
-    """Model-level TLC runs. Returns (predicted race pairs, schedules for replay, coverage dict, states, transitions)."""
+def model_runs(ctx, offgate=False):
+    """Model-level TLC runs. Returns (predicted race pairs, schedules for replay, coverage dict, states, transitions).
+    offgate: the tree carries the optional gate purge.offline, schedules may stop there."""
     quick = ctx.quick
     cov = {}
     predicted = set()
@@ -102,7 +104,7 @@ def model_runs(ctx):
         return r
 
     # (1) all interleavings of the code's discipline: race pairs, lock order, deadlock, panic, structure
-    plan = [("mc_stale", "stale", (), ALL_OPS), ("mc_dup", "dup", (), ALL_OPS),
+    plan = [("mc_stale", "stale", (), ALL_OPS), ("mc_dup", "dup", (), ALL_OPS), ("mc_returning", "returning", (), ALL_OPS),
             ("mc_ipchange_api1", "ipchange", ("api1",), ALL_OPS),
             ("mc_apionly_api2", "apionly", ("api1", "api2"), ALL_OPS)]
     if not quick:
@@ -130,14 +132,17 @@ def model_runs(ctx):
     # (4) every schedule of the gate-granular instance
     schedules = []
     gplan = [("stale", (), ALL_OPS), ("ipchange", (), ALL_OPS), ("dup", (), ALL_OPS), ("mix", (), ALL_OPS),
+             ("returning", (), ALL_OPS), ("twoold", (), ALL_OPS),
              ("stale", ("api1",), ["GetHosts", "PrintTable", "FindMACEntry", "Capture"]),
              ("ipchange", ("api1",), ["GetHosts", "PrintTable"])]
     if not quick:
         gplan += [("two", (), ALL_OPS), ("mix", ("api1",), ["GetHosts", "PrintTable", "FindMACEntry", "SetDHCPv4IPOffer"]),
-                  ("dup", ("api1",), ["FindIP", "IPAddrs", "FindByMAC", "IsCaptured", "Release"])]
+                  ("dup", ("api1",), ["FindIP", "IPAddrs", "FindByMAC", "IsCaptured", "Release"]),
+                  ("returning", ("api1",), ["GetHosts", "PrintTable", "IPAddrs", "FindMACEntry"])]
     for sc, api, ops in gplan:
         name = "gg_%s%s" % (sc, "_api" if api else "")
-        r = must_pass(name, cfg(sc, spec="GGSpec", api=api, ops=ops, inv=["TypeOK", "LockOrder", "NoPanic", "GGExport"], deadlock=False), workers=1)
+        r = must_pass(name, cfg(sc, spec="GGSpec", api=api, ops=ops, inv=["TypeOK", "LockOrder", "NoPanic", "GGExport"], deadlock=False,
+                                offgate=offgate), workers=1)
         for x in r.json:
             if isinstance(x, dict) and "sched" in x:
                 x["final"]["hosts"] = sorted(x["final"]["hosts"], key=lambda h: h["ip"])
@@ -205,6 +210,13 @@ def analyse(a, rc, so, se, timed_out, need_result=True):
     fatal = cc.parse_fatal(se)
     if fatal:
         ev.append(("C09:fatal:%s:%s" % (fatal["msg"], fatal["func"]), "runtime fatal error: " + fatal["msg"], fatal["raw"]))
+    mp = re.search(r"^CONC-PANICS (\[.*\])$", se, re.M)
+    if mp:
+        try:
+            for p in json.loads(mp.group(1)):
+                ev.append(("C09:panic:%s:%s" % (_stable(p["msg"]), p.get("top", "")), "panic in %s: %s" % (p["where"], p["msg"]), json.dumps(p)))
+        except ValueError:
+            pass
     dl = cc.parse_deadlock(se)
     if dl:
         ev.append(("C09:deadlock:" + dl["stuck"], "no progress (%s); blocked on a lock: %s" % (dl["why"], dl["blocked"]), dl["raw"]))
@@ -286,11 +298,17 @@ def run(ctx):
     cov = ctx.coverage
     quick = ctx.quick
     learn = os.environ.get("VERIF_C09_LEARN")
-    predicted, schedules, tlccov, states, trans = model_runs(ctx)
-    cov["tlc"] = tlccov
-    cov["model_race_pairs"] = sorted(predicted)
     binary = vlib.go_build(ctx, "concdrv", race=True)
     TMP[0] = ctx.scratch
+    rc, so, se, to = child(binary, ["-mode", "gates"], timeout=60)
+    try:
+        gates = json.loads(so.strip().splitlines()[-1])
+    except (ValueError, IndexError):
+        raise vlib.InfraError("concdrv -mode gates gave no answer (rc=%s)\n%s" % (rc, se[-2000:]))
+    predicted, schedules, tlccov, states, trans = model_runs(ctx, offgate=bool(gates.get("purge.offline")))
+    cov["tlc"] = tlccov
+    cov["gates"] = gates
+    cov["model_race_pairs"] = sorted(predicted)
     events = {}        # key -> {"what", "detail", "count", "where": [args]}
 
     def note(key, what, detail, where):
@@ -429,6 +447,9 @@ def run(ctx):
         "TLC instances: 2 MAC addresses, 2 IPv4 addresses, 2 frames, one purge round, up to 2 API callers",
         "spoof loops are paced by 6 s / 2-2.8 s timers: within a run they iterate once or twice; Close is exercised at the end of every run",
     ]
+    for k in unlisted:
+        vlib.log("  unlisted event that did not show again: %s -- %s -- first seen in %s\n%s" %
+                 (k, events[k]["what"][:400], json.dumps(events[k]["where"][:1])[:600], events[k]["detail"][:3000]))
     if unlisted and not ctx.violations:
         raise vlib.InfraError("events not listed as known findings that did not show again on re-runs: %s" % unlisted)
 
